@@ -48,6 +48,7 @@ FUNC_PROPS = {
     'LanguageGraph.get_association_by_fields_and_assets': ('C15', 'C18', 'C19'),      # used by the securiCAD loader
     'LanguageGraph._get_variable_for_asset_type_by_name': ('C01', 'C03', 'C02'),   # requirements of exist steps use variables
     'LanguageGraph._get_associations_for_asset_type': ('C15', 'C03'),
+    'Model.get_attacker_by_id': ('C05', 'C18'),                  # the securiCAD loader attaches entry points through it
     'malVisitor.visitMal': ('C04', 'C17'),                       # includes are compiled (and rejected) from here
     'LanguageGraph.regenerate_graph': ('C15', 'C03'),            # C03 quantifies over language-graph regenerations
     'LanguageGraph.from_mal_spec': ('C15', 'C04', 'C17'),       # the entry point C04 / C17 observe the compiler through
